@@ -113,7 +113,7 @@ def generate(tier, seed):
     for e in LEMMAS + DEFINITIONS[:1] + INDUCTIVE:
         outlines.append(('single', e if 'd(X)' not in e or e.startswith('definition') else DEFINITIONS[0] + ' ' + e))
     pool = LEMMAS + INDUCTIVE
-    n = 30 if tier == 'quick' else 400
+    n = 30 if tier == 'quick' else 2500
     for _ in range(n):
         k = rnd.choice([2, 3, 4])
         defs = rnd.sample(DEFINITIONS, rnd.choice([0, 1, 2, 3]))
@@ -415,7 +415,7 @@ def replay(r):
 
 def describe(tier):
     return {
-        'rule': 'outlines attached to 4 small external-equivalence tasks (program/program, with an integer placeholder, '
+        'rule': 'for each base task, a definition of every predicate name its outline-less problems use (must be refused); outlines attached to 4 small external-equivalence tasks (program/program, with an integer placeholder, '
                 'specification/program, clashing private predicates): every lemma / inductive lemma of the pools alone, seeded '
                 'sequences of 2-4 lemmas interleaved with 0-3 definitions (all direction annotations, free variables, induction '
                 'variable re-bound inside F, negative n), 16 outlines with a definition violating exactly one acceptance '
